@@ -226,11 +226,11 @@ def run_case(case, env):
         out['probes']['limit_%s' % case.get('limit', 1000)] = 1
         for w in case['words']:
             exact = rpda.accepts(snap0, w)
-            pb = 40_000 + 400 * case.get('limit', 1000) * (len(w) + 1)
+            pb = 100_000 + 2500 * (case.get('limit', 1000) + 30) * (len(w) + 1)
             st, lib_acc, ticks = call(env, pa.pda_accepts_word, obj, w, budget=pb)
             if not record(st, lib_acc, ticks, 'pda_accepts_word', w):
                 continue
-            st, val, ticks = call(env, pa.pda_simulate_word, obj, w, budget=60_000 + 5 * ticks)
+            st, val, ticks = call(env, pa.pda_simulate_word, obj, w, budget=100_000 + 6 * ticks)
             if not record(st, val, ticks, 'pda_simulate_word', w):
                 continue
             rows = _plain_rows(val)
